@@ -58,7 +58,8 @@ ASSUMPTIONS = [
     'walk_folder arguments are relative folder names without "." / ".." components; a trailing separator is allowed '
     '(srctools itself calls walk_folder("materials/") and the chain passes "<prefix>/")',
     'chain queries contain no ".." (escaping a member subfolder is not part of the statement)',
-    'VPK files are written with arch_index=0, default dir_data_limit and contents < 200 bytes; the result is '
+    'VPK files are written with arch_index 0/1 and the default dir_data_limit; every third file is 1.1-3 KiB so that '
+    'data lands in numbered archives; the result is '
     're-read with an independent decoder before it is used',
 ]
 TECHNIQUE = ('property-based testing (Hypothesis): differential testing of four backends against a reference model '
@@ -141,7 +142,7 @@ def fileset_strategy(tier: str):
 
 def chain_strategy(tier: str):
     member = st.fixed_dictionaries({
-        'backend': st.sampled_from(BACKENDS),
+        'backend': st.sampled_from(BACKENDS + ('vpk',)),
         'pick': st.lists(st.integers(0, 63), min_size=0, max_size=8),
         'case': st.sampled_from(['orig', 'orig', 'upper', 'lower']),
         'prefix': st.one_of(st.none(), st.none(), st.integers(0, 15)),   # index into the member's folders
@@ -197,11 +198,25 @@ def normalise(paths, allow_clash: bool = False):
     return list(files.values())
 
 
+def expand_token(line: bytes, i: int) -> bytes:
+    """Every third file is 1.1-3 KiB (the token line repeated, numbered), so that a VPK with the default 1 KiB
+    dir_data_limit has to put its tail into a numbered archive; descriptors stay small."""
+    if i % 3 != 1:
+        return line
+    size = 1100 + (i * 577) % 1900
+    out = bytearray()
+    k = 0
+    while len(out) < size:
+        out += b'%d:' % k + line
+        k += 1
+    return bytes(out)
+
+
 class FileSet:
     """A legal file set with tokens; the oracle for one backend."""
     def __init__(self, paths, tag: str = '') -> None:
         self.paths = list(paths)
-        self.tokens = {p: f'DATA{tag} {i} {p}\n'.encode('utf8') for i, p in enumerate(self.paths)}
+        self.tokens = {p: expand_token(f'DATA{tag} {i} {p}\n'.encode('utf8'), i) for i, p in enumerate(self.paths)}
         self.by_fold = {fold(p): p for p in self.paths}
         if len(self.by_fold) != len(self.paths):
             raise HarnessError(f'file set not unique under folding: {paths!r}')
@@ -270,10 +285,19 @@ def decode_vpk_dir(path: str) -> dict[str, bytes]:
                     break
                 crc, preload, arch, offset, length, term = struct.unpack_from('<IHHIIH', blob, pos)
                 pos += 18
-                if term != 0xFFFF or length != 0:
+                if term != 0xFFFF:
                     raise HarnessError(f'unexpected VPK entry {name!r}: len={length} term={term:x}')
                 data = blob[pos:pos + preload]
                 pos += preload
+                if length:
+                    if arch == 0x7FFF:
+                        data += blob[end + offset:end + offset + length]
+                    else:
+                        if not path.endswith('_dir.vpk'):
+                            raise HarnessError(f'archive index {arch} in a single-file VPK')
+                        with open(f'{path[:-8]}_{arch:03}.vpk', 'rb') as af:
+                            af.seek(offset)
+                            data += af.read(length)
                 full = (folder + '/' if folder != ' ' else '') + name + ('.' + ext if ext != ' ' else '')
                 out[full] = data
     if pos != end:
@@ -296,6 +320,7 @@ class Scratch:
         self.dir = tempfile.mkdtemp(prefix='verif_c19_', dir=scratch_parent())
         self.closers = []
         self.n = 0
+        self.vpk_archived = False       # a VPK of this case keeps file data in a numbered archive
 
     def sub(self, name: str) -> str:
         self.n += 1
@@ -303,7 +328,9 @@ class Scratch:
         os.mkdir(d)
         return d
 
-    def close(self) -> None:
+    def close(self, ctx=None) -> None:
+        if ctx is not None and self.vpk_archived:
+            ctx.label('vpk:data_in_numbered_archive')
         for c in self.closers:
             try:
                 c()
@@ -344,14 +371,16 @@ def make_backend(kind: str, fset: FileSet, scratch: Scratch, opts: dict):
     if kind == 'vpk':
         fname = os.path.join(d, 'pak.vpk' if opts.get('vpk_single') else 'pak_dir.vpk')
         vpk = VPK(fname, mode='w')
-        for p in fset.paths:
-            vpk.add_file(p, fset.tokens[p], arch_index=0)
+        for i, p in enumerate(fset.paths):
+            vpk.add_file(p, fset.tokens[p], arch_index=i % 2)
+            if len(fset.tokens[p]) > 1024 and not opts.get('vpk_single'):
+                scratch.vpk_archived = True
         vpk.write_dirfile()
         got = decode_vpk_dir(fname)
         want = {p: fset.tokens[p] for p in fset.paths}
         if got != want:
             raise HarnessError(f'VPK writer did not store the file set (a C13 matter): want {want!r} got {got!r}')
-        if sorted(os.listdir(d)) != [os.path.basename(fname)]:
+        if set(os.listdir(d)) - {os.path.basename(fname), 'pak_000.vpk', 'pak_001.vpk'}:
             raise HarnessError(f'VPK writer made extra files: {os.listdir(d)!r}')
         return VPKFileSystem(fname)
     if kind == 'raw':
@@ -544,7 +573,7 @@ def execute_names(desc, ctx):
                 ctx.label('absent')
                 check_absent(ctx, fs, backend, q)
     finally:
-        scratch.close()
+        scratch.close(ctx)
 
 
 # ------------------------------------------------------------------------------------------------
@@ -607,7 +636,7 @@ def make_walk_execute(backend: str):
                 ctx.label('folder:' + lab)
                 check_walk(ctx, fs, fset, backend, lab, q)
         finally:
-            scratch.close()
+            scratch.close(ctx)
     execute_walk.__name__ = 'execute_walk_' + backend
     return execute_walk
 
@@ -906,7 +935,7 @@ def execute_chain(desc, ctx):
             check_order(step)
             query_round(step, k)
     finally:
-        scratch.close()
+        scratch.close(ctx)
 
 
 # ------------------------------------------------------------------------------------------------
@@ -1068,12 +1097,12 @@ def execute_case_dups(desc, ctx):
                 ctx.check(rep == want, 'dup_chain_repeat', f'chain({kind}) {what}: walk_folder_repeat({q!r})\n want {want!r}\n '
                           f'got  {rep!r}', backend=backend, folder=q)
     finally:
-        scratch.close()
+        scratch.close(ctx)
 
 
 SUBCHECKS = [
     Sub('names', execute_names, strategy=fileset_strategy, quick=500, thorough=30000, floor=40,
-        must_hit=('name:lower_ne_casefold', 'mixed_case', 'prefix_pair', 'spelling:backslash', 'spelling:swap', 'spelling:mixed_slash', 'absent',
+        must_hit=('vpk:data_in_numbered_archive', 'name:lower_ne_casefold', 'mixed_case', 'prefix_pair', 'spelling:backslash', 'spelling:swap', 'spelling:mixed_slash', 'absent',
                   'depth:3', 'empty_set')),
 ] + [
     Sub('walk_' + b, make_walk_execute(b), strategy=fileset_strategy, quick=500, thorough=30000, floor=40,
@@ -1081,14 +1110,14 @@ SUBCHECKS = [
                   'folder:name_extended', 'folder:file_as_folder', 'walk_nonempty:exact', 'walk_nonempty:exact_slash',
                   'walk_nonempty:all', 'depth:3')
         + (() if b == 'raw' else ('folder:upper', 'walk_nonempty:upper'))
-        + (() if b == 'vpk' else ('name:lower_ne_casefold',)))
+        + (('vpk:data_in_numbered_archive',) if b == 'vpk' else ('name:lower_ne_casefold',)))
     for b in BACKENDS
 ] + [
     Sub('case_dups', execute_case_dups, strategy=casedup_strategy, quick=500, thorough=30000, floor=40,
         must_hit=('has_case_dup_file', 'has_case_dup_folder', 'backend:zip', 'backend:vpk', 'chain:single',
                   'chain:zip+vpk')),
     Sub('chain', execute_chain, strategy=chain_strategy, quick=600, thorough=30000, floor=40,
-        must_hit=('chain:folder_file_clash', 'chain:clash_raw_ahead_of_winner', 'chain:folder_file_clash_raw', 'chain:folder_file_clash_zip', 'chain:query_before_append', 'chain:query_before_priority_insert', 'lookup:not_yet_visible',
+        must_hit=('vpk:data_in_numbered_archive', 'chain:folder_file_clash', 'chain:clash_raw_ahead_of_winner', 'chain:folder_file_clash_raw', 'chain:folder_file_clash_zip', 'chain:query_before_append', 'chain:query_before_priority_insert', 'lookup:not_yet_visible',
                   'shared_name', 'priority_insert', 'prefixed_member', 'members:4', 'walk_deduplicated',
                   'member:virtual', 'member:zip', 'member:vpk', 'member:raw', 'walk:exact', 'lookup:upper',
                   'lookup:backslash')),
